@@ -45,6 +45,12 @@ class PatternEncoderBase(LazyEncoder):
         # Encode
         super().set_settings(settings)
 
+    def _validate_design_vars(self, design_vars: List[DiscreteDV]):
+        # A pattern whose coding would need a variable with one option does not apply to these settings
+        for i, dv in enumerate(design_vars):
+            if dv.n_opts < 2:
+                raise InvalidPatternEncoder(f'Pattern encoder {self!r} needs a design variable with {dv.n_opts} opts: {i}')
+
     def _try_settings(self, settings: MatrixGenSettings):
         self._settings = settings
         self._effective_settings = settings.get_effective_settings()
